@@ -103,3 +103,55 @@ def files_package(dirnames, files, declared_sizes=None):
     ent.sort()
     content = cpio_newc([(b"." + (dirnames[f[0]] if f[0] < len(dirnames) else b"/") + f[1], f[2], f[4]) for f in files])
     return lead() + sig_header([], b"") + header(ent, st) + content
+
+
+def check_header_bytes(b, region):
+    """structural rules of a written header (after rpm's hdrblobVerifyInfo/Region), on bytes; returns None or what is wrong"""
+    be32 = lambda o: struct.unpack(">I", b[o:o + 4])[0]  # noqa: E731
+    if len(b) < 16 or b[:4] != b"\x8e\xad\xe8\x01" or b[4:8] != b"\0\0\0\0":
+        return "bad intro"
+    n, sz = be32(8), be32(12)
+    if len(b) < 16 + 16 * n + sz:
+        return "intro counts exceed the bytes written"
+    if n == 0:
+        return "no region entry"
+    st = b[16 + 16 * n:16 + 16 * n + sz]
+    ent = lambda i: (be32(16 + 16 * i), be32(20 + 16 * i), struct.unpack(">i", b[24 + 16 * i:28 + 16 * i])[0], be32(28 + 16 * i))  # noqa: E731
+    rtag, rty, roff, rcnt = ent(0)
+    if rtag != region or rty != 7 or rcnt != 16:
+        return "first entry is not the region tag (BIN, count 16)"
+    if roff < 0 or roff + 16 != len(st):
+        return "region trailer is not at the end of the store"
+    want = struct.pack(">IIiI", region, 7, -16 * n, 16)
+    if st[roff:] != want:
+        return "region trailer does not point back over exactly all entries"
+    prev_tag, prev_end = None, 0
+    for i in range(1, n):
+        tag_, ty, off, cnt = ent(i)
+        if prev_tag is not None and tag_ <= prev_tag:
+            return "tags are not in strictly ascending order (%d then %d)" % (prev_tag, tag_)
+        prev_tag = tag_
+        if ty > 9:
+            return "type %d out of range" % ty
+        al = {3: 2, 4: 4, 5: 8}.get(ty, 1)
+        if off < 0 or off % al:
+            return "offset %d of a type-%d entry is not aligned to %d" % (off, ty, al)
+        if cnt == 0:
+            return "entry with zero count"
+        if off < prev_end:
+            return "entry data overlaps the previous entry"
+        if ty in (6, 8, 9):
+            j = off
+            for _ in range(cnt):
+                while j < roff and st[j] != 0:
+                    j += 1
+                if j >= roff:
+                    return "unterminated string in the store"
+                j += 1
+            ln = j - off
+        else:
+            ln = cnt * al
+        if off + ln > roff:
+            return "entry data runs past the end of the data area"
+        prev_end = off + ln
+    return None
